@@ -60,6 +60,7 @@ type state struct {
 	Holder string              `json:"holder"`
 	Pc     map[string]string   `json:"pc"`
 	Res    map[string][]result `json:"res"`
+	Q      []int               `json:"q"`
 }
 
 func key(holder string, n int, pc map[string]string, res map[string][]result) string {
@@ -74,6 +75,46 @@ func key(holder string, n int, pc map[string]string, res map[string][]result) st
 		fmt.Fprintf(&sb, " %s:%s%v", t, pc[t], res[t])
 	}
 	return sb.String()
+}
+
+// withRest: a terminal outcome also says what is left in the queue (in order)
+func withRest(out string, rest []int) string {
+	if rest == nil {
+		rest = []int{}
+	}
+	return out + fmt.Sprintf(" rest=%v", rest)
+}
+
+// drain: every thread is done; one more thread pops everything that is left (stepped to completion under the controller)
+func (x *inst) drain() ([]int, error) {
+	var rest []int
+	g, err := x.c.Spawn("zz-drain", func() {
+		for {
+			vs, ok := x.rb.PopN(64)
+			if !ok || len(vs) == 0 {
+				return
+			}
+			rest = append(rest, vs...)
+			if len(rest) > 1000 {
+				return
+			}
+		}
+	})
+	if err != nil {
+		return nil, err
+	}
+	for k := 0; !g.Done() && k < 10000; k++ {
+		if !g.Parked() {
+			return rest, fmt.Errorf("drain thread is not parked")
+		}
+		if _, err := x.c.Step(g); err != nil {
+			return rest, err
+		}
+		if g.Panic != nil {
+			return rest, fmt.Errorf("panic in drain: %v", g.Panic)
+		}
+	}
+	return rest, nil
 }
 
 func outcome(n int, res map[string][]result) string {
@@ -261,6 +302,11 @@ func threadOf(e graph.Edge) string {
 
 func judge(x *inst, allowed map[string]bool) string {
 	_, out, _, _ := x.project()
+	rest, err := x.drain()
+	if err != nil {
+		return "draining the queue after the calls: " + err.Error()
+	}
+	out = withRest(out, rest)
 	if !allowed[out] {
 		return "the calls returned " + out + ": no sequential order of these calls on a FIFO queue gives these results (not one of the outcomes of the specification)"
 	}
@@ -302,7 +348,7 @@ func main() {
 		}
 		want[id] = key(s.Holder, s.Len, s.Pc, s.Res)
 		if g.Terminal(id) {
-			allowed[outcome(s.Len, s.Res)] = true
+			allowed[withRest(outcome(s.Len, s.Res), s.Q)] = true
 		}
 	}
 	rep.Outcomes = len(allowed)
@@ -336,6 +382,16 @@ func main() {
 			if got, _, _, _ := x.project(); got != want[e.Dst] {
 				rep.Divergences = append(rep.Divergences, divergence{names, want[e.Dst], got, ""})
 				return false
+			}
+		}
+		// a path that ends with every thread done: what is left in the queue must be what the specification has left
+		if x.allDone() {
+			if what := judge(x, allowed); what != "" {
+				sch := make([]string, len(path))
+				for k, ei := range path {
+					sch[k] = threadOf(g.Edges[ei])
+				}
+				rep.Violations = append(rep.Violations, violation{what, sch})
 			}
 		}
 		if len(rep.Samples) < 2 {
